@@ -712,3 +712,5 @@ META = {
     "stream; os.stat mtime semantics. Known findings (key misses context/mode) are listed in known_findings.json.",
     "more": "Also decided: a cache entry is stored before the compiled code runs (its time stamp is compared with the source's). The entry writer starts from an empty file (truncating open / O_TRUNC / temp + replace). The code text is hashed through a fixed injective encoding (UTF-8/16/32, strict or surrogatepass): no codec or error handler read from run-time configuration.",
 }
+
+META["more"] += ' No code object or unmarshalled cache entry is served from state kept across calls (attribute or module-level memo).'
